@@ -72,6 +72,7 @@ class C06(Prop):
         if surface == "wsgi-sse":
             plan["preempt"] = t.choice(PREEMPT)
             plan["cdelays"] = [t.choice((0.0, 0.0, 0.001, P / 2, P, P + 0.001)) for _ in range(8)]
+            plan["pool_delay"] = t.choice((0.0, 0.0, 0.0, P / 2, 2 * P + 0.001))
         return plan
 
     def variants(self, plan, ctx0):
@@ -279,6 +280,7 @@ class C06(Prop):
         ctx.notes["qrepr"] = lambda x: None if x is None else (x.get("data") if isinstance(x, dict) else type(x).__name__)
         with T.simulation(ctx.sched, ctx, trace_files=("baize/wsgi/responses.py", "baize/concurrency.py"), preempt=plan["preempt"]) as s:
             import time as _t
+            s.pool_delay = plan.get("pool_delay", 0.0)
 
             def gen():
                 st["started"] += 1
